@@ -66,8 +66,10 @@ func c12(env *core.Env, sel bool) {
 	var plan *reg.FaultPlan
 	iterFault := c.Bool("iterfault", 1, 4)
 	firedIter := false
+	iterAt := 0
 	if iterFault {
 		at := c.Range("iterfault.at", 0, 3)
+		iterAt = at
 		plan = &reg.FaultPlan{IterFailAfter: func(call *reg.Call) (int, error) {
 			if call.Method != "Repositories" {
 				return -1, nil
@@ -78,6 +80,49 @@ func c12(env *core.Env, sel bool) {
 		}}
 	}
 	backend := reg.Wrap(mem, tracker, plan)
+	// The wrapped registry may itself be an access-checking wrapper (configurations nest
+	// them). Seen from the outer wrapper the inner one is the wrapped registry: it is
+	// entered when its policy function is asked anything.
+	nested := c.Bool("nested", 1, 4)
+	var innerAsked []string
+	var twinTarget ociregistry.Interface = twin
+	innerHides := func(string) bool { return false }
+	if nested {
+		salt2 := uint64(c.Int("policy.inner.salt", 1<<20))
+		innerSel := c.Bool("policy.inner.select", 1, 2)
+		denied2 := func(name string, kind ocifilter.AccessKind) bool {
+			h := fnv.New64a()
+			if innerSel {
+				fmt.Fprintf(h, "inner|%d|%s", salt2, name)
+			} else {
+				fmt.Fprintf(h, "inner|%d|%s|%d", salt2, name, kind)
+			}
+			return h.Sum64()%5 == 0
+		}
+		inner := func(r ociregistry.Interface, record bool) ociregistry.Interface {
+			if innerSel {
+				return ocifilter.Select(r, func(name string) bool {
+					if record {
+						innerAsked = append(innerAsked, name)
+					}
+					return !denied2(name, 0)
+				})
+			}
+			return ocifilter.AccessChecker(r, func(name string, kind ocifilter.AccessKind) error {
+				if record {
+					innerAsked = append(innerAsked, fmt.Sprintf("%s/%d", name, kind))
+				}
+				if denied2(name, kind) {
+					return ociregistry.NewError(fmt.Sprintf("inner policy rejects %s/%d", name, kind), "VERIF_INNER_POLICY", nil)
+				}
+				return nil
+			})
+		}
+		backend = inner(backend, true)
+		twinTarget = inner(twin, false)
+		innerHides = func(name string) bool { return denied2(name, ocifilter.AccessRead) }
+		env.Probe("c12:nested-wrappers")
+	}
 	var wrapped ociregistry.Interface
 	if sel {
 		wrapped = ocifilter.Select(backend, func(name string) bool { return !denied(name, 0) })
@@ -151,6 +196,7 @@ func c12(env *core.Env, sel bool) {
 			repo := cfg.Repos[c.Int("probe.resume.repo", len(cfg.Repos))]
 			id := []string{"", "no-such-upload", "0"}[c.Int("probe.resume.id", 3)]
 			tracker.Reset()
+			innerAsked = nil
 			w, err := wrapped.PushBlobChunkedResume(ctx, repo, id, 0, 0)
 			calls := slices.Clone(tracker.Calls)
 			if w != nil {
@@ -163,12 +209,15 @@ func c12(env *core.Env, sel bool) {
 				if len(calls) > 0 {
 					env.Failf("C12/"+w0+"/PushBlobChunkedResume/backend-reached", "PushBlobChunkedResume(%q, id %q): the policy rejects writes to %q but the wrapped registry was called: %s", repo, id, repo, calls[0])
 				}
+				if len(innerAsked) > 0 {
+					env.Failf("C12/"+w0+"/PushBlobChunkedResume/backend-reached", "PushBlobChunkedResume(%q, id %q): the policy rejects writes to %q but the wrapped registry (an access checker itself) was entered: its policy was asked about %v", repo, id, repo, innerAsked)
+				}
 				if err == nil {
 					env.Failf("C12/"+w0+"/PushBlobChunkedResume/rejection-not-reported", "PushBlobChunkedResume(%q, id %q): the policy rejects writes to %q but the call succeeded", repo, id, repo)
 				}
 			} else {
 				// keep the twin in step (an upload names its repository into existence)
-				if tw, terr := twin.PushBlobChunkedResume(ctx, repo, id, 0, 0); terr == nil {
+				if tw, terr := twinTarget.PushBlobChunkedResume(ctx, repo, id, 0, 0); terr == nil {
 					tw.Close()
 				} else if err == nil {
 					env.Failf("C12/"+w0+"/PushBlobChunkedResume/differs-from-wrapped", "PushBlobChunkedResume(%q, id %q) is allowed and succeeded through the wrapper but fails directly: %v", repo, id, terr)
@@ -185,6 +234,7 @@ func c12(env *core.Env, sel bool) {
 			continue
 		}
 		tracker.Reset()
+		innerAsked = nil
 		firedIter = false
 		rW := reg.Exec(ctx, wrapped, op, hW)
 		calls := slices.Clone(tracker.Calls)
@@ -205,6 +255,9 @@ func c12(env *core.Env, sel bool) {
 		if rejected != nil {
 			if len(calls) > 0 {
 				env.Failf(class("backend-reached"), "%s: the policy rejects (%q, kind %d) but the wrapped registry was called: %s", op, rejected.name, rejected.kind, calls[0])
+			}
+			if len(innerAsked) > 0 {
+				env.Failf(class("backend-reached"), "%s: the policy rejects (%q, kind %d) but the wrapped registry (an access checker itself) was entered: its policy was asked about %v", op, rejected.name, rejected.kind, innerAsked)
 			}
 			err := rW.Err
 			if err == nil {
@@ -239,7 +292,7 @@ func c12(env *core.Env, sel bool) {
 			continue
 		}
 		// allowed: behaves exactly as the wrapped registry (the twin)
-		rT := reg.Exec(ctx, twin, op, hT)
+		rT := reg.Exec(ctx, twinTarget, op, hT)
 		if op.Kind == reg.UpStart && rT.Err == nil {
 			liveTwin[op.Handle] = true
 		}
@@ -247,7 +300,7 @@ func c12(env *core.Env, sel bool) {
 		if op.Kind == reg.Repositories {
 			// the twin's listing, minus the repositories the policy hides
 			var want []string
-			full := reg.Exec(ctx, twin, &reg.Op{Kind: reg.Repositories, Start: op.Start, StopAfter: -1, ContentFault: -1}, hT)
+			full := reg.Exec(ctx, twinTarget, &reg.Op{Kind: reg.Repositories, Start: op.Start, StopAfter: -1, ContentFault: -1}, hT)
 			for _, r := range full.Items {
 				if !denied(r, ocifilter.AccessRead) {
 					want = append(want, r)
@@ -261,6 +314,22 @@ func c12(env *core.Env, sel bool) {
 			if firedIter {
 				if rW.ListErr == nil && !(op.StopAfter >= 0 && len(rW.Items) >= op.StopAfter) {
 					env.Failf(class("backend-error-swallowed"), "%s: the wrapped listing failed but the filtered listing ended without error: %v", op, rW.Items)
+				}
+				// what the wrapped registry did list before it failed is listed (minus
+				// the hidden names), as it would be without the wrapper
+				raw := reg.Exec(ctx, twin, &reg.Op{Kind: reg.Repositories, Start: op.Start, StopAfter: -1, ContentFault: -1}, hT)
+				before := raw.Items[:min(iterAt, len(raw.Items))]
+				var wantBefore []string
+				for _, r := range before {
+					if !innerHides(r) && !denied(r, ocifilter.AccessRead) {
+						wantBefore = append(wantBefore, r)
+					}
+				}
+				if op.StopAfter >= 0 && len(wantBefore) > op.StopAfter {
+					wantBefore = wantBefore[:op.StopAfter]
+				}
+				if !slices.Equal(rW.Items, wantBefore) && !(len(rW.Items) == 0 && len(wantBefore) == 0) {
+					env.Failf(class("listing-differs-before-failure"), "%s: the wrapped listing delivered %v and then failed; through the wrapper %v arrived before the error, want %v", op, before, rW.Items, wantBefore)
 				}
 				if rW.ExtraCalls > 0 {
 					env.Failf(class("consumer-called-after-end"), "%s: consumer called %d more time(s) after the end", op, rW.ExtraCalls)
